@@ -50,6 +50,21 @@ func (vc *VC) Run() {
 			o.Expect = "sat"
 		}
 		vc.applyHints(-1, "", env)
+		// ghost instrumentation executed at entry: the ghost variables named in the
+		// function's modifies clause take the values given by its ghostdef clauses
+		if len(vc.fc.GhostDefs) > 0 {
+			pre := st.clone()
+			for _, m := range vc.fc.Modifies {
+				if g, ok := prog0Ghost(vc, m); ok {
+					vc.heapKeySort("#ghost."+m, vc.parseType(g.Type, vc.pkg))
+					vc.havocKey(st, "#ghost."+m)
+				}
+			}
+			genv := vc.newEnv(st, pre)
+			for _, c := range vc.fc.GhostDefs {
+				vc.addFact("assume", vc.trBool(c.E, genv))
+			}
+		}
 	}
 	vc.reach[0] = "true"
 	order := vc.rpo()
@@ -337,6 +352,13 @@ func (vc *VC) enterLoop(li *loopInfo, b *ssa.BasicBlock, preds []*ssa.BasicBlock
 	}
 	li.hdrSt = st.clone()
 	vc.curState = st
+	// 2a. automatic frame invariant: memory that existed at function entry and is outside the
+	// function's modifies clause still holds its entry value (checked on every edge into the header)
+	if keys, byKey, ok := vc.loopFrame(li); ok {
+		for _, k := range keys {
+			vc.assume(r, vc.frameCond(k, vc.heapGet(st, k, vc.heapElem[k]), byKey[k], true))
+		}
+	}
 	// 2b. automatic counter bounds: a header phi that only moves in one direction
 	vc.findAutoInv(li)
 	for _, ai := range li.auto {
@@ -405,6 +427,15 @@ func (vc *VC) checkInvariant(li *loopInfo, from *ssa.BasicBlock, st *State, whic
 	vc.cur, vc.curIdx = from, len(from.Instrs)
 	defer func() { vc.cur, vc.curIdx = save, saveIdx; vc.curState = saveSt }()
 	env := vc.loopEnv(li, from, st)
+	if keys, byKey, ok := vc.loopFrame(li); ok {
+		for _, k := range keys {
+			h := vc.heapGet(st, k, vc.heapElem[k])
+			if h == vc.heapGet(vc.entrySt, k, vc.heapElem[k]) {
+				continue
+			}
+			vc.obligeG("loop-"+which, fmt.Sprintf("loop%d:auto-frame:%s", li.ord, k), g, vc.frameCond(k, h, byKey[k], false), vc.loopPos(li))
+		}
+	}
 	if which == "entry" {
 		saveR := vc.reach[from.Index]
 		vc.reach[from.Index] = g
@@ -1270,4 +1301,9 @@ func stepDir(phi *ssa.Phi, e ssa.Value) int {
 		}
 	}
 	return 0
+}
+
+func prog0Ghost(vc *VC, name string) (*GhostVar, bool) {
+	g, ok := vc.prog.cs.Ghosts[name]
+	return g, ok
 }
